@@ -978,6 +978,40 @@ v("C20", "route-metric-dropped", "break", FIREWALL,
   '''                    next_hop_ip_address=IPv4Address(route.get("next_hop_ip_address")),
                 )
         if "default_route" in config:''', "R20.2", "firewall routes lose their metric")
+v("C20", "rules-added-to-the-wrong-list", "break", FIREWALL,
+  '''                for r_num, r_cfg in config["acl"]["external_outbound_acl"].items():
+                    firewall.external_outbound_acl.add_rule(''',
+  '''                for r_num, r_cfg in config["acl"]["external_outbound_acl"].items():
+                    firewall.external_inbound_acl.add_rule(''', "R20.5", "external outbound rules land in the inbound list")
+v("C20", "wireless-router-rules-appended-in-file-order", "break", P + "simulator/network/hardware/nodes/network/wireless_router.py",
+  '''                    dst_wildcard_mask=r_cfg.get("dst_wildcard_mask"),
+                    position=r_num,''',
+  '''                    dst_wildcard_mask=r_cfg.get("dst_wildcard_mask"),
+                    position=len(router.acl.acl) - router.acl.acl.count(None),''', "R20.5", "position ignores the declared key")
+v("C20", "router-acl-src-ip-from-dst", "break", ROUTER,
+  '''                    src_ip_address=r_cfg.get("src_ip"),
+                    src_wildcard_mask=r_cfg.get("src_wildcard_mask"),
+                    dst_ip_address=r_cfg.get("dst_ip"),''',
+  '''                    src_ip_address=r_cfg.get("dst_ip"),
+                    src_wildcard_mask=r_cfg.get("src_wildcard_mask"),
+                    dst_ip_address=r_cfg.get("dst_ip"),''', "R20.5", "source address taken from the destination key")
+v("C20", "pc-links-default-bandwidth", "break", P + "simulator/network/creation.py",
+  '''            network.connect(switch.network_interface[switch_port], pc.network_interface[1], bandwidth=config.bandwidth)''',
+  '''            network.connect(switch.network_interface[switch_port], pc.network_interface[1])''', "R20.5", "PC links ignore the declared bandwidth")
+v("C20", "constant-scheduler-hands-out-its-own-dict", "break", SCHED,
+  '''        return copy.deepcopy(self.config)''',
+  '''        return self.config''', "R20.6", "second episode is built from a consumed dict")
+v("C20", "benign-acl-keywords-reordered", "benign", ROUTER,
+  '''                    src_ip_address=r_cfg.get("src_ip"),
+                    src_wildcard_mask=r_cfg.get("src_wildcard_mask"),
+                    dst_ip_address=r_cfg.get("dst_ip"),
+                    dst_wildcard_mask=r_cfg.get("dst_wildcard_mask"),
+                    position=r_num,''',
+  '''                    position=r_num,
+                    dst_ip_address=r_cfg.get("dst_ip"),
+                    dst_wildcard_mask=r_cfg.get("dst_wildcard_mask"),
+                    src_ip_address=r_cfg.get("src_ip"),
+                    src_wildcard_mask=r_cfg.get("src_wildcard_mask"),''', None, "same arguments in another order")
 v("C20", "benign-bandwidth-local-rename", "benign", GAME,
   '''            bandwidth = link_cfg.get("bandwidth", DEFAULT_BANDWIDTH)  # default value if not configured''',
   '''            bandwidth = link_cfg.get("bandwidth") if "bandwidth" in link_cfg else DEFAULT_BANDWIDTH''', None, "same value computed differently")
